@@ -20,6 +20,61 @@ BASE = "agilerl.algorithms.core.base"
 MODBASE = "agilerl.modules.base"
 
 
+# --------------------------------------------------------------------------------------------- roles of locals
+# The inspected functions are free to spell their locals as they like: every local the rules talk about is found by
+# its role (what defines it / where it flows), never by its name.
+def _is_self_ctor(c: ast.AST) -> bool:
+    """`type(self)(...)` / `self.__class__(...)`: a new object of the receiver's class."""
+    if not isinstance(c, ast.Call):
+        return False
+    if dotted(c.func) == "self.__class__":
+        return True
+    f = c.func
+    return isinstance(f, ast.Call) and call_name(f) == "type" and len(f.args) == 1 and dotted(f.args[0]) == "self"
+
+
+def _new_object_name(fn: Fn) -> Optional[str]:
+    """The local bound to the new object of the receiver's class (`<x> = type(self)(...)` / `self.__class__(...)`)."""
+    names = []
+    for n in walk_no_nested(fn.node):
+        if isinstance(n, ast.Assign) and len(n.targets) == 1 and isinstance(n.targets[0], ast.Name) and _is_self_ctor(n.value):
+            names.append(n.targets[0].id)
+    return names[0] if names and all(x == names[0] for x in names) else None
+
+
+def _is_setattr_on(c: ast.Call, name: Optional[str]) -> bool:
+    return (name is not None and call_name(c) == "setattr" and len(c.args) == 3
+            and isinstance(c.args[0], ast.Name) and c.args[0].id == name)
+
+
+def _returned_name(fn: Fn, pos: Optional[int] = None) -> Optional[str]:
+    """The local returned on every path (element `pos` of the returned tuple when given)."""
+    names = []
+    for r in walk_no_nested(fn.node):
+        if isinstance(r, ast.Return):
+            v = r.value
+            if pos is not None:
+                v = v.elts[pos] if isinstance(v, ast.Tuple) and len(v.elts) > pos else None
+            if not isinstance(v, ast.Name):
+                return None
+            names.append(v.id)
+    return names[0] if names and all(x == names[0] for x in names) else None
+
+
+def _loop_var_over(fn: Fn, iter_dotted: str) -> Optional[str]:
+    """The loop variable of `for <x> in <iter_dotted>:`."""
+    for n in walk_no_nested(fn.node):
+        if isinstance(n, ast.For) and dotted(n.iter) == iter_dotted and isinstance(n.target, ast.Name):
+            return n.target.id
+    return None
+
+
+def _defined_only_by(cfg: CFG, n, name: str, pred) -> bool:
+    """Every definition of local `name` reaching node n binds a value accepted by pred."""
+    defs = cfg.defs_reaching(n, name) if n is not None else []
+    return bool(defs) and all((v := cfg.value_of_def(d, name)) is not None and pred(v) for d in defs)
+
+
 def run(ck: Check, repo: Repo) -> None:
     ck.not_decided += [
         "that parent and clone pick the same greedy actions / compute the same update (runtime values)",
@@ -106,8 +161,8 @@ def r2_networks_owned(ck: Check, repo: Repo, clone: Fn, mclone: Fn) -> None:
     )
     cfg = CFG(clone.node)
     ev = OwnEval(cfg, alias_roots={"self"})
-    sets = [c for c in calls_in(clone.node) if call_name(c) == "setattr" and len(c.args) == 3
-            and isinstance(c.args[0], ast.Name) and c.args[0].id == "clone"]
+    new = _new_object_name(clone)  # the local holding the copy: bound to type(self)(...)
+    sets = [c for c in calls_in(clone.node) if _is_setattr_on(c, new)]
     ck.floor("C01.2", len(sets), 2, "setattr(clone, ...) in clone()", fn=clone)
     for c in sets:
         n = cfg.node_of(c)
@@ -148,8 +203,9 @@ def r2_networks_owned(ck: Check, repo: Repo, clone: Fn, mclone: Fn) -> None:
     ok = any(c.args and isinstance(c.args[0], ast.Call) and dotted(c.args[0].func) == "self.state_dict" for c in loads)
     ck.ob("C01.2", mclone, loads[0] if loads else mclone.node, ok,
           "the module clone receives the parent's weights through load_state_dict(self.state_dict()) (copying)")
+    mnew = _new_object_name(mclone)  # the local holding the module copy: bound to self.__class__(...)
     rets = [n for n in walk_no_nested(mclone.node) if isinstance(n, ast.Return)]
-    ok = bool(rets) and all(isinstance(r.value, ast.Name) and r.value.id == "clone" for r in rets)
+    ok = mnew is not None and bool(rets) and all(isinstance(r.value, ast.Name) and r.value.id == mnew for r in rets)
     ck.ob("C01.2", mclone, rets[0] if rets else mclone.node, ok, "EvolvableModule.clone returns the new object on every path")
     # no parameter tensors assigned by reference from self
     bad = []
@@ -157,7 +213,7 @@ def r2_networks_owned(ck: Check, repo: Repo, clone: Fn, mclone: Fn) -> None:
         if isinstance(n, ast.Assign):
             for t in n.targets:
                 d = dotted(t)
-                if d.startswith("clone.") and d.split(".")[-1] in ("data", "weight", "bias", "_parameters", "_modules", "_buffers"):
+                if mnew is not None and d.startswith(mnew + ".") and d.split(".")[-1] in ("data", "weight", "bias", "_parameters", "_modules", "_buffers"):
                     bad.append(n)
     ck.ob("C01.2", mclone, bad[0] if bad else mclone.node, not bad,
           "EvolvableModule.clone never assigns parameter storage of the parent to the clone by reference",
@@ -369,9 +425,12 @@ def r5_no_write_back(ck: Check, repo: Repo, clone: Fn, copy_attrs: Fn) -> None:
                 ck.ob("C01.5", clone, c, not eff, f"callee self.{name}() stores nothing into the parent",
                       detail="; ".join(eff[:4]))
     # population elements: only .clone()/.fitness/.index reads
+    # (methods of the new list itself — the local returned as the new population — are not calls on members)
+    newpop = _returned_name(tour.methods["select"], 1)
     for fn in (tour.methods["_elitism"], tour.methods["select"]):
+        own_list = (newpop + ".",) if (newpop is not None and fn.name == "select") else ()
         for c in calls_in(fn.node):
-            if isinstance(c.func, ast.Attribute) and not call_name(c).startswith(("np.", "self.", "new_population.")):
+            if isinstance(c.func, ast.Attribute) and not call_name(c).startswith(("np.", "self.") + own_list):
                 ok = c.func.attr in ("clone", "argsort")
                 ck.ob("C01.5", fn, c, ok,
                       "the only method invoked on members of the old population is clone()",
@@ -386,11 +445,12 @@ def r6_shared_containers(ck: Check, repo: Repo, mclone: Fn) -> None:
         "mutated by append/+=/[i]= elsewhere in the class hierarchy)",
     )
     em = repo.cls(MODBASE, "EvolvableModule")
+    mnew = _new_object_name(mclone)  # the local holding the module copy
     shared = []
     for n in walk_no_nested(mclone.node):
         if isinstance(n, ast.Assign) and len(n.targets) == 1:
             t, v = dotted(n.targets[0]), dotted(n.value)
-            if t.startswith("clone.") and v.startswith("self.") and t.split(".", 1)[1] == v.split(".", 1)[1]:
+            if mnew is not None and t.startswith(mnew + ".") and v.startswith("self.") and t.split(".", 1)[1] == v.split(".", 1)[1]:
                 shared.append((n, v.split(".", 1)[1]))
     ck.note("C01.6_shared_attrs", [a for _, a in shared])
     # in-place mutations over all EvolvableModule classes
@@ -445,7 +505,11 @@ def r7_overrides_complete(ck: Check, repo: Repo) -> None:
     ck.ob("C01.7", wfn, inner[0] if inner else wfn.node, bool(inner), "AgentWrapper.clone clones the wrapped agent")
     if inner:
         ctor = [c for c in calls_in(wfn.node) if dotted(c.func) in ("self.__class__",) or call_name(c) == "type(self)"]
-        ok = bool(ctor) and any(isinstance(a, ast.Name) and a.id == "agent_clone" for a in ctor[0].args)
+        # the argument is the local bound to self.agent.clone(...) (or that call itself)
+        wcfg = CFG(wfn.node)
+        is_inner = lambda v: isinstance(v, ast.Call) and call_name(v) == "self.agent.clone"
+        ok = bool(ctor) and any(is_inner(a) or (isinstance(a, ast.Name) and _defined_only_by(wcfg, wcfg.node_of(ctor[0]), a.id, is_inner))
+                                for a in ctor[0].args)
         ck.ob("C01.7", wfn, ctor[0] if ctor else wfn.node, ok, "the new wrapper is built around the cloned agent, not the parent")
         ca = [c for c in calls_in(wfn.node) if last_attr(c) == "copy_attributes"]
         ck.ob("C01.7", wfn, ca[0] if ca else wfn.node, bool(ca), "wrapper attributes go through copy_attributes (deep copies)")
@@ -459,7 +523,9 @@ def r8_tournament(ck: Check, repo: Repo) -> None:
     eli = tour.methods["_elitism"]
     cfg = CFG(sel.node)
     ev = OwnEval(cfg, alias_roots={"population"})
-    apps = [c for c in calls_in(sel.node) if last_attr(c) in ("append", "insert", "extend") and call_name(c).startswith("new_population.")]
+    newpop = _returned_name(sel, 1)  # the local returned as the new population
+    apps = [c for c in calls_in(sel.node) if last_attr(c) in ("append", "insert", "extend")
+            and newpop is not None and call_name(c).startswith(newpop + ".")]
     ck.floor("C01.8", len(apps), 2, "append sites building the new population", fn=sel)
     for c in apps:
         n = cfg.node_of(c)
@@ -468,7 +534,7 @@ def r8_tournament(ck: Check, repo: Repo) -> None:
         ck.ob("C01.8", sel, c, o.level == FRESH and is_clone, "member appended to the new population is a clone",
               detail=f"{o.level}: {o.why}")
     # the population list itself is a new list
-    defs = [n for n in walk_no_nested(sel.node) if isinstance(n, ast.Assign) and dotted(n.targets[0]) == "new_population"]
+    defs = [n for n in walk_no_nested(sel.node) if isinstance(n, ast.Assign) and newpop is not None and dotted(n.targets[0]) == newpop]
     ok = bool(defs) and all(isinstance(d.value, (ast.List, ast.ListComp)) or (isinstance(d.value, ast.Call) and call_name(d.value) == "list" and not d.value.args) for d in defs)
     ck.ob("C01.8", sel, defs[0] if defs else sel.node, ok, "the new population is a new list object, not the old one")
     ecfg = CFG(eli.node)
@@ -500,8 +566,13 @@ def r9_inspect_excludes(ck: Check, repo: Repo, inspect_attrs: Fn, clone: Fn) -> 
         "attribute, and clone() re-creates every registered optimizer from the clone's own networks",
     )
     src_nodes = list(walk_no_nested(inspect_attrs.node))
-    excl = [n for n in src_nodes if isinstance(n, ast.Assign) and dotted(n.targets[0]) == "exclude"]
-    ok = any("evolvable_attributes" in ast.unparse(n.value) for n in excl)
+    # the exclusion list is the local seeded from <agent>.evolvable_attributes() (`agent` is the parameter)
+    def seeded(v: ast.AST) -> bool:
+        return any(isinstance(x, ast.Call) and call_name(x) == "agent.evolvable_attributes" for x in ast.walk(v))
+    excl_names = {n.targets[0].id for n in src_nodes if isinstance(n, ast.Assign) and len(n.targets) == 1
+                  and isinstance(n.targets[0], ast.Name) and seeded(n.value)}
+    excl = [n for n in src_nodes if isinstance(n, ast.Assign) and dotted(n.targets[0]) in excl_names]
+    ok = any(seeded(n.value) for n in excl)
     ck.ob("C01.9", inspect_attrs, excl[0] if excl else inspect_attrs.node, ok,
           "the exclusion list is seeded from agent.evolvable_attributes() (networks and optimizers)")
     # both dict comprehensions filter on `not in exclude`
@@ -509,11 +580,17 @@ def r9_inspect_excludes(ck: Check, repo: Repo, inspect_attrs: Fn, clone: Fn) -> 
     ck.floor("C01.9", len(comps), 2, "attribute dict comprehensions in inspect_attributes", fn=inspect_attrs)
     for dc in comps:
         conds = [c for g in dc.generators for c in g.ifs]
-        ok = any(isinstance(a, ast.Compare) and isinstance(a.ops[0], ast.NotIn) and dotted(a.comparators[0]) == "exclude"
+        ok = any(isinstance(a, ast.Compare) and isinstance(a.ops[0], ast.NotIn) and dotted(a.comparators[0]) in excl_names
                  for c in conds for a, _ in conjuncts(c))
         ck.ob("C01.9", inspect_attrs, dc, ok, "returned attributes are filtered by `k not in exclude`")
     # clone(): optimizer networks come from cloned_modules, lr from the original wrapper
     cfg = CFG(clone.node)
+    new = _new_object_name(clone)  # the local holding the copy
+    optcfg = _loop_var_over(clone, "self.registry.optimizers")  # the registry entry of the optimizer being re-created
+    # the container(s) whose elements are installed on the copy as its networks: setattr(<copy>, _, <container>[_])
+    installed = [c for c in calls_in(clone.node) if _is_setattr_on(c, new) and isinstance(c.args[2], ast.Subscript)
+                 and isinstance(c.args[2].value, ast.Name)]
+    own_nets = {c.args[2].value.id for c in installed}
     ows = [c for c in calls_in(clone.node) if call_name(c) == "OptimizerWrapper"]
     ck.floor("C01.9", len(ows), 1, "OptimizerWrapper construction in clone()", fn=clone)
     for c in ows:
@@ -521,17 +598,21 @@ def r9_inspect_excludes(ck: Check, repo: Repo, inspect_attrs: Fn, clone: Fn) -> 
         n = cfg.node_of(c)
         ok = False
         if nets is not None:
-            roots = _roots(nets, cfg, n)
-            ok = bool(roots) and roots <= {"cloned_modules"}
+            roots = _roots(nets, cfg, n, optcfg)
+            ok = bool(roots) and bool(own_nets) and roots <= own_nets
         ck.ob("C01.9", clone, c, ok, "the clone's optimizer is built over the clone's own (cloned) networks",
-              detail=f"`networks` derives from {sorted(_roots(nets, cfg, n)) if nets is not None else '?'}")
+              detail=f"`networks` derives from {sorted(_roots(nets, cfg, n, optcfg)) if nets is not None else '?'}")
         lr = get_kw(c, "lr", 2)
-        ok = lr is not None and dotted(lr).startswith("orig_optimizer.")
+        # the parent's optimizer: the local bound to getattr(self, <registry entry>.name)
+        def parent_opt(v: ast.AST) -> bool:
+            return (isinstance(v, ast.Call) and call_name(v) == "getattr" and len(v.args) >= 2 and dotted(v.args[0]) == "self"
+                    and optcfg is not None and dotted(v.args[1]) == f"{optcfg}.name")
+        ok = isinstance(lr, ast.Attribute) and isinstance(lr.value, ast.Name) and _defined_only_by(cfg, n, lr.value.id, parent_opt)
         ck.ob("C01.9", clone, c, ok, "the clone's optimizer uses the parent's optimizer learning rate",
               construct=f"lr={short(lr, 60)}")
         for kw, want in (("optimizer_kwargs", "optimizer_kwargs"), ("multiagent", "multiagent"), ("lr_name", "lr"), ("network_names", "networks")):
             v = get_kw(c, kw)
-            ok = v is not None and dotted(v) == f"opt_config.{want}"
+            ok = v is not None and optcfg is not None and dotted(v) == f"{optcfg}.{want}"
             ck.ob("C01.9", clone, c, ok, f"optimizer setting `{kw}` is taken from the registry entry of the same optimizer",
                   construct=f"{kw}={short(v, 60)}")
     # loop is over every registered optimizer
@@ -539,29 +620,32 @@ def r9_inspect_excludes(ck: Check, repo: Repo, inspect_attrs: Fn, clone: Fn) -> 
     ck.ob("C01.9", clone, fors[0] if fors else clone.node, bool(fors) and dotted(fors[0].iter) == "self.registry.optimizers",
           "clone() iterates over every optimizer of the parent's registry")
     # mutation hooks re-run on the clone after modules are set, before optimizers are created
-    hooks = [c for c in calls_in(clone.node) if call_name(c) == "clone.mutation_hook"]
+    hooks = [c for c in calls_in(clone.node) if new is not None and call_name(c) == f"{new}.mutation_hook"]
     ok = False
     if hooks and ows:
         hn, on = cfg.node_of(hooks[0]), cfg.node_of(ows[0])
-        sets = [cfg.node_of(c) for c in calls_in(clone.node) if call_name(c) == "setattr" and "cloned_modules" in ast.unparse(c)]
+        sets = [cfg.node_of(c) for c in installed]
         ok = hn is not None and on is not None and cfg.dominates(hn, on) and all(s is not None and hn.id in cfg.reachable_from(s) for s in sets)
     ck.ob("C01.9", clone, hooks[0] if hooks else clone.node, ok,
           "clone.mutation_hook() runs after the cloned networks are installed and before optimizers are built over them")
 
 
-def _roots(e: ast.AST, cfg: CFG, n, depth: int = 4) -> Set[str]:
-    """Root local names an expression's value is built from (following local definitions)."""
+def _roots(e: ast.AST, cfg: CFG, n, optcfg: Optional[str] = None, depth: int = 4) -> Set[str]:
+    """Root local names an expression's value is built from (following local definitions).  Not roots: the registry
+    entry being iterated (`optcfg`, it only supplies network *names*) and variables bound by a comprehension inside
+    the expression (their values come from the comprehension's iterable, which is walked)."""
     out: Set[str] = set()
+    bound = {t.id for x in ast.walk(e) if isinstance(x, ast.comprehension) for t in ast.walk(x.target) if isinstance(t, ast.Name)}
     for x in ast.walk(e):
         if isinstance(x, ast.Name) and isinstance(x.ctx, ast.Load):
-            if x.id in ("opt_config", "net", "isinstance", "list", "len", "range"):
+            if x.id == optcfg or x.id in bound or x.id in ("isinstance", "list", "len", "range"):
                 continue
             defs = cfg.defs_reaching(n, x.id)
             vals = [(cfg.value_of_def(d, x.id), d) for d in defs]
             if depth > 0 and vals and all(v is not None for v, _ in vals) and all(d.kind == "stmt" for _, d in vals) \
                     and not any(isinstance(d.ast, ast.Assign) and any(isinstance(t, ast.Subscript) for t in d.ast.targets) for _, d in vals):
                 for v, d in vals:
-                    out |= _roots(v, cfg, d, depth - 1)
+                    out |= _roots(v, cfg, d, optcfg, depth - 1)
             else:
                 out.add(x.id)
     return out
